@@ -80,7 +80,7 @@ Entries(f, k) == [i \in 1..Len(f[k]) |-> [min |-> Min(f[k][i]), max |-> Max(f[k]
 MinKey(f) == Min(Keys(f))
 MaxKey(f) == Max(Keys(f))
 FileMinT(f) == Min(AllPts(f))
-FileMaxT(f) == Max(AllPts(f))
+FileMaxT(f) == Max(AllPts(f))                    \* exact also when every time is negative (F21 repaired in reader.go)
 KMin(f, k) == Min(Pts(f, k))                     \* entries[0].MinTime
 KMax(f, k) == Max(Pts(f, k))                     \* entries[len-1].MaxTime
 TypeOf(k) == k % 5                                \* block type of the key (the driver maps 0..4 to the five TSM types)
